@@ -10,7 +10,7 @@
 #     (any strictly monotone image of the float distances gives the same `argmin`; the suites pass squared lattice distances);
 #   * read_swc: `fix_roots` is `none` (False) or `some s` (a string; any other value behaves like an unknown string);
 #     the parsing statements before `# fix swc` are skipped; the returned `(df, comments)` is the updated columns plus `warnings_`;
-#   * sort_nodes_: `for col in df.columns: df[col] = df[col][indices].to_numpy()` is the gather of the four modelled columns.
+#   * sort_nodes_: `for col in df.columns: df[col] = df[col].to_numpy()[indices]` is the gather of the four modelled columns.
 MODULE_IMPORTS["AlgoRepair"] = ["Model.PyFrame", "AlgoCheckers", "AlgoNormalizer", "AlgoSort"]
 CALLEES["get_dsu"] = "get_dsu"
 CALLEES["reset_index_"] = "reset_index_"
@@ -49,7 +49,7 @@ spec(lean="sort_nodes_", module="AlgoRepair", file=_NORM, func="sort_nodes_", ca
      ret="Unit", out=["cid", "cpid", "ctype", "cr"], fuel=True,
      subst={"df[names.id]": ("v.cid", "List Int"), "df[names.pid]": ("v.cpid", "List Int")},
      stores={"df[names.id]": "cid", "df[names.pid]": "cpid"}, skip_stmts=["names = get_names(names)"],
-     stmt_subst={"for col in df.columns:\n    df[col] = df[col][indices].to_numpy()":
+     stmt_subst={"for col in df.columns:\n    df[col] = df[col].to_numpy()[indices]":
                  "cid = cid[indices]\ncpid = cpid[indices]\nctype = ctype[indices]\ncr = cr[indices]"},
      doc="`swcgeom/core/swc_utils/normalizer.py::sort_nodes_` (the frame is its columns `cid`, `cpid`, `ctype`, `cr`: every column is gathered "
          "by `indices`, then the two topology columns are replaced)")
